@@ -432,113 +432,121 @@ def main():
     # ------------------------------------------------------------------ D: corpus, then seeded run
     stats_all = {"cases": 0, "lines": 0, "hist": {}, "samples": [], "oracle_failures": []}
     distinct = set()
-    if harness_ok and driver_ok:
-        runs = []
-        cdir = os.path.join(VERIF, "corpus", prop)
-        if os.path.isdir(cdir):
-            for fn in sorted(os.listdir(cdir)):
-                if fn.endswith(".ops"):
-                    runs.append(("corpus:" + fn, os.path.join(cdir, fn), None))
-                if fn.endswith(".ops32") and (tier == "thorough" or fn.startswith("q-")):
-                    runs.append(("corpus32:" + fn, os.path.join(cdir, fn), 32))
-        for g in cfg["gen"]:
-            ops_p = os.path.join(WORK, "%s-%s-%d.ops" % (g, tier, seed))
-            impl_p = os.path.join(WORK, "%s-%s-%d.impl" % (g, tier, seed))
-            rc, out, err = sh([SFH, "gen", g, tier, str(seed), ops_p, impl_p], timeout=7000)
-            if rc != 0:
-                rp = write_replay(prop, tier, seed, "harness-crash", {"stderr": err[-800:], "gen": g})
-                violations.append(("the harness died while generating (%s)" % err.strip()[-200:], rp, True))
-                continue
-            runs.append(("gen:" + g, ops_p, impl_p))
-        for label, ops_p, impl_p in runs:
-            width = 64
-            if impl_p == 32:
-                width = 32
-                impl_p = os.path.join(WORK, "corpus32-%d.impl" % os.getpid())
-                with Lock(".miri.lock"):
-                    rc32, err32 = run_impl32(ops_p, impl_p)
-                if rc32 != 0:
-                    obligations.append(("32-bit run of the real crates under miri (%s)" % label, False, err32[-400:]))
+    d_tiers = [tier]
+    reported_oracle = 0
+    for d_tier in d_tiers:          # may grow: a broken obligation without a failing input widens the search
+        if harness_ok and driver_ok:
+            runs = []
+            cdir = os.path.join(VERIF, "corpus", prop)
+            if os.path.isdir(cdir) and d_tier == tier:
+                for fn in sorted(os.listdir(cdir)):
+                    if fn.endswith(".ops"):
+                        runs.append(("corpus:" + fn, os.path.join(cdir, fn), None))
+                    if fn.endswith(".ops32") and (d_tier == "thorough" or fn.startswith("q-")):
+                        runs.append(("corpus32:" + fn, os.path.join(cdir, fn), 32))
+            for g in cfg["gen"]:
+                ops_p = os.path.join(WORK, "%s-%s-%d.ops" % (g, d_tier, seed))
+                impl_p = os.path.join(WORK, "%s-%s-%d.impl" % (g, d_tier, seed))
+                rc, out, err = sh([SFH, "gen", g, d_tier, str(seed), ops_p, impl_p], timeout=7000)
+                if rc != 0:
+                    rp = write_replay(prop, tier, seed, "harness-crash", {"stderr": err[-800:], "gen": g})
+                    violations.append(("the harness died while generating (%s)" % err.strip()[-200:], rp, True))
                     continue
-                coverage32 = sum(1 for _ in open(ops_p))
-                notes.append("32-bit (miri/i686) corpus %s: %d lines" % (label, coverage32))
-            elif impl_p is None:
-                impl_p = os.path.join(WORK, "corpus-%d.impl" % os.getpid())
-                run_impl(ops_p, impl_p)
-            model_p = os.path.join(WORK, os.path.basename(ops_p) + ".model")
-            rc, err = run_driver(ops_p, model_p, width)
-            if rc != 0:
-                obligations.append(("model driver runs", False, err[-300:]))
-                continue
-            sp = ops_p + ".stats.json"
-            if os.path.exists(sp):
-                st = json.load(open(sp))
-                stats_all["cases"] += st["cases"]
-                stats_all["lines"] += st["lines"]
-                for k, v in st["hist"].items():
-                    stats_all["hist"][k] = stats_all["hist"].get(k, 0) + v
-                stats_all["samples"] += st["samples"]
-                stats_all["oracle_failures"] += st["oracle_failures"]
-            if not os.path.exists(sp):
-                stats_all["cases"] += sum(1 for l in open(ops_p) if l.startswith("case "))
-                stats_all["lines"] += sum(1 for _ in open(ops_p))
-            with open(ops_p) as f:
-                for l in f:
-                    if not (l.startswith("case ") or l.startswith("width ") or l.startswith("thread ")):
-                        distinct.add(l)
-            n_dis, first = first_disagreement(ops_p, impl_p, model_p)
-            if n_dis:
-                case, idx = first
-                mini, fin = (case["ops"], None) if width == 32 else minimise(case["ops"], prop)
-                if fin is None:
-                    fin = (idx, case["cols"][0], case["cols"][1])
-                    mini = case["ops"]
-                i, a, b = fin
-                rp = write_replay(prop, tier, seed, "disagreement", {
-                    "ops": mini, "impl": a, "model": b, "first_difference_at": i, "source": label,
-                    "cases_disagreeing": n_dis,
-                    "note": "the implementation's answer differs from the verified model's on these operations"})
-                violations.append(("correspondence broken (%d case(s)); first: `%s` -> impl `%s` / model `%s`" % (
-                    n_dis, mini[i][:80] if i < len(mini) else "?", a[i][:60] if i < len(a) else "?", b[i][:60] if i < len(b) else "?"), rp, True))
-        if cfg.get("wasm") and wasm_ok:
-            sub = cfg["wasm"].lower()
-            n_sc = {"c04": 360, "c07": 160}[sub] * (10 if tier == "thorough" else 1)
-            ops_p = os.path.join(WORK, "%s-%s-%d.ops" % (sub, tier, seed))
-            impl_p = os.path.join(WORK, "%s-%s-%d.impl" % (sub, tier, seed))
-            rc, out, err = sh([SFW, sub, str(seed), str(n_sc), ops_p, impl_p], timeout=7000)
-            if rc != 0:
-                rp = write_replay(prop, tier, seed, "harness-crash", {"stderr": err[-800:], "tool": "sfw " + sub})
-                violations.append(("the wasm harness failed (%s)" % err.strip()[-200:], rp, False))
-            else:
-                wj = json.loads(out)
-                model_p = ops_p + ".model"
-                run_driver(ops_p, model_p)
-                ops_l = open(ops_p).read().split("\n")
-                a_l = open(impl_p).read().split("\n")
-                b_l = open(model_p).read().split("\n")
-                n_lines = len([l for l in ops_l if l])
-                stats_all["lines"] += wj.get("scenarios", wj.get("cases", 0))
-                stats_all["cases"] += n_lines
-                for k, v in wj.get("hist", {}).items():
-                    stats_all["hist"][k] = stats_all["hist"].get(k, 0) + v
-                stats_all["samples"] += ["%s -> %s" % (ops_l[i][:140], a_l[i][:120]) for i in range(min(3, n_lines))]
-                stats_all["oracle_failures"] += wj.get("oracle_failures", [])
-                if wj.get("known_f8"):
-                    notes.append("%d scenario(s) hit the known finding F8 (rejected string write copied anyway)" % wj["known_f8"])
-                for l in ops_l:
-                    if l:
-                        distinct.add(l)
-                dis = [(i, ops_l[i], a_l[i] if i < len(a_l) else "<missing>", b_l[i] if i < len(b_l) else "<missing>")
-                       for i in range(n_lines) if (a_l[i] if i < len(a_l) else None) != (b_l[i] if i < len(b_l) else None)]
-                if dis:
-                    i, o, a, b = dis[0]
+                runs.append(("gen:" + g, ops_p, impl_p))
+            for label, ops_p, impl_p in runs:
+                width = 64
+                if impl_p == 32:
+                    width = 32
+                    impl_p = os.path.join(WORK, "corpus32-%d.impl" % os.getpid())
+                    with Lock(".miri.lock"):
+                        rc32, err32 = run_impl32(ops_p, impl_p)
+                    if rc32 != 0:
+                        obligations.append(("32-bit run of the real crates under miri (%s)" % label, False, err32[-400:]))
+                        continue
+                    coverage32 = sum(1 for _ in open(ops_p))
+                    notes.append("32-bit (miri/i686) corpus %s: %d lines" % (label, coverage32))
+                elif impl_p is None:
+                    impl_p = os.path.join(WORK, "corpus-%d.impl" % os.getpid())
+                    run_impl(ops_p, impl_p)
+                model_p = os.path.join(WORK, os.path.basename(ops_p) + ".model")
+                rc, err = run_driver(ops_p, model_p, width)
+                if rc != 0:
+                    obligations.append(("model driver runs", False, err[-300:]))
+                    continue
+                sp = ops_p + ".stats.json"
+                if os.path.exists(sp):
+                    st = json.load(open(sp))
+                    stats_all["cases"] += st["cases"]
+                    stats_all["lines"] += st["lines"]
+                    for k, v in st["hist"].items():
+                        stats_all["hist"][k] = stats_all["hist"].get(k, 0) + v
+                    stats_all["samples"] += st["samples"]
+                    stats_all["oracle_failures"] += st["oracle_failures"]
+                if not os.path.exists(sp):
+                    stats_all["cases"] += sum(1 for l in open(ops_p) if l.startswith("case "))
+                    stats_all["lines"] += sum(1 for _ in open(ops_p))
+                with open(ops_p) as f:
+                    for l in f:
+                        if not (l.startswith("case ") or l.startswith("width ") or l.startswith("thread ")):
+                            distinct.add(l)
+                n_dis, first = first_disagreement(ops_p, impl_p, model_p)
+                if n_dis:
+                    case, idx = first
+                    mini, fin = (case["ops"], None) if width == 32 else minimise(case["ops"], prop)
+                    if fin is None:
+                        fin = (idx, case["cols"][0], case["cols"][1])
+                        mini = case["ops"]
+                    i, a, b = fin
                     rp = write_replay(prop, tier, seed, "disagreement", {
-                        "ops": [o], "impl": [a], "model": [b], "first_difference_at": 0, "cases_disagreeing": len(dis),
-                        "note": "wasmtime execution of the real trampoline output (impl) vs the Lean model (model)"})
-                    violations.append(("correspondence broken (%d line(s)); first: `%s` -> impl `%s` / model `%s`" % (len(dis), o[:100], a[:80], b[:80]), rp, True))
-        for o in stats_all["oracle_failures"][:3]:
-            rp = write_replay(prop, tier, seed, "oracle", {"failure": o, "all": stats_all["oracle_failures"][:20]})
-            violations.append(("implementation vs oracle: " + o[:200], rp, True))
+                        "ops": mini, "impl": a, "model": b, "first_difference_at": i, "source": label,
+                        "cases_disagreeing": n_dis,
+                        "note": "the implementation's answer differs from the verified model's on these operations"})
+                    violations.append(("correspondence broken (%d case(s)); first: `%s` -> impl `%s` / model `%s`" % (
+                        n_dis, mini[i][:80] if i < len(mini) else "?", a[i][:60] if i < len(a) else "?", b[i][:60] if i < len(b) else "?"), rp, True))
+            if cfg.get("wasm") and wasm_ok:
+                sub = cfg["wasm"].lower()
+                n_sc = {"c04": 360, "c07": 160}[sub] * (10 if d_tier == "thorough" else 1)
+                ops_p = os.path.join(WORK, "%s-%s-%d.ops" % (sub, d_tier, seed))
+                impl_p = os.path.join(WORK, "%s-%s-%d.impl" % (sub, d_tier, seed))
+                rc, out, err = sh([SFW, sub, str(seed), str(n_sc), ops_p, impl_p], timeout=7000)
+                if rc != 0:
+                    rp = write_replay(prop, tier, seed, "harness-crash", {"stderr": err[-800:], "tool": "sfw " + sub})
+                    violations.append(("the wasm harness failed (%s)" % err.strip()[-200:], rp, False))
+                else:
+                    wj = json.loads(out)
+                    model_p = ops_p + ".model"
+                    run_driver(ops_p, model_p)
+                    ops_l = open(ops_p).read().split("\n")
+                    a_l = open(impl_p).read().split("\n")
+                    b_l = open(model_p).read().split("\n")
+                    n_lines = len([l for l in ops_l if l])
+                    stats_all["lines"] += wj.get("scenarios", wj.get("cases", 0))
+                    stats_all["cases"] += n_lines
+                    for k, v in wj.get("hist", {}).items():
+                        stats_all["hist"][k] = stats_all["hist"].get(k, 0) + v
+                    stats_all["samples"] += ["%s -> %s" % (ops_l[i][:140], a_l[i][:120]) for i in range(min(3, n_lines))]
+                    stats_all["oracle_failures"] += wj.get("oracle_failures", [])
+                    if wj.get("known_f8"):
+                        notes.append("%d scenario(s) hit the known finding F8 (rejected string write copied anyway)" % wj["known_f8"])
+                    for l in ops_l:
+                        if l:
+                            distinct.add(l)
+                    dis = [(i, ops_l[i], a_l[i] if i < len(a_l) else "<missing>", b_l[i] if i < len(b_l) else "<missing>")
+                           for i in range(n_lines) if (a_l[i] if i < len(a_l) else None) != (b_l[i] if i < len(b_l) else None)]
+                    if dis:
+                        i, o, a, b = dis[0]
+                        rp = write_replay(prop, tier, seed, "disagreement", {
+                            "ops": [o], "impl": [a], "model": [b], "first_difference_at": 0, "cases_disagreeing": len(dis),
+                            "note": "wasmtime execution of the real trampoline output (impl) vs the Lean model (model)"})
+                        violations.append(("correspondence broken (%d line(s)); first: `%s` -> impl `%s` / model `%s`" % (len(dis), o[:100], a[:80], b[:80]), rp, True))
+            for o in stats_all["oracle_failures"][reported_oracle:reported_oracle + 3]:
+                rp = write_replay(prop, tier, seed, "oracle", {"failure": o, "all": stats_all["oracle_failures"][:20]})
+                violations.append(("implementation vs oracle: " + o[:200], rp, True))
+        reported_oracle = len(stats_all["oracle_failures"])
+        if (d_tier == "quick" and len(d_tiers) == 1 and harness_ok and driver_ok
+                and any(not ok for _, ok, _ in obligations) and not any(v[2] for v in violations)):
+            d_tiers.append("thorough")
+            notes.append("a proof obligation is broken and the quick search found no failing input: searching again with the thorough generators")
 
     # ------------------------------------------------------------------ broken obligations
     broken = [(n, d) for n, ok, d in obligations if not ok]
